@@ -43,6 +43,10 @@ class BlobWorld:
         import ZODB.FileStorage
         import ZODB.MappingStorage
         self.dir = tempfile.mkdtemp(prefix='zverif-c13-', dir=SCRATCH_BASE)
+        # blobs that do not belong to a connection yet create their files in the default temp directory
+        self._old_tempdir = tempfile.tempdir
+        tempfile.tempdir = os.path.join(self.dir, 'systmp')
+        os.mkdir(tempfile.tempdir)
         self.clock = _clock.install(_clock.ScriptedClock())
         self.blob_dir = os.path.join(self.dir, 'blobs')
         if kind == 'file':
@@ -66,6 +70,8 @@ class BlobWorld:
         self.sps = []
         self.n = 0
         self.k = 0
+        self.gone = {}           # name -> tid of the transaction that un-created the blob (undo of its creation)
+        self.marks = []          # (tid, clock instant just after it) of every transaction boundary that wrote something
 
     def destroy(self):
         try:
@@ -73,6 +79,7 @@ class BlobWorld:
             self.db.close()
         except Exception:
             pass
+        tempfile.tempdir = self._old_tempdir
         shutil.rmtree(self.dir, ignore_errors=True)
 
     # -- operations ---------------------------------------------------------
@@ -156,12 +163,18 @@ class BlobWorld:
         self.touched = set(touched)
         return 'R'
 
+    def _mark(self):
+        tid = self.s.lastTransaction()
+        if not self.marks or self.marks[-1][0] != tid:
+            self.marks.append((tid, self.clock.now + 0.25))
+
     def _commit_model(self):
         tid = self.s.lastTransaction()
+        self._mark()
         change = {}
         for name in self.touched:
             if name in self.work:
-                self.revs.setdefault(name, []).append((tid, self.work[name]))
+                self.revs.setdefault(name, []).append((tid, self.work[name], None))
                 self.oid[name] = self.root[name]._p_oid
                 change[name] = (self.committed.get(name), self.work[name])
         self.committed = dict(self.work)
@@ -244,13 +257,19 @@ class BlobWorld:
         self.db.undo(base64.encodebytes(tid).rstrip(), self.tm.get())
         self.tm.commit()
         utid = self.s.lastTransaction()
+        self._mark()
         inverse = {}
         for name, (prev, new) in change.items():
             if prev is None:
                 self.committed.pop(name, None)         # creation undone: the blob is gone from the root
+                self.gone[name] = utid
             else:
                 self.committed[name] = prev
-                self.revs.setdefault(name, []).append((utid, prev))   # undo brings back the previous bytes as a new revision
+                # undo brings back the previous bytes as a new revision; its record points back to the revision
+                # that held those bytes (the newest earlier revision with them), which a later pack must keep
+                src = [r[0] for r in self.revs.get(name, []) if r[0] < tid and r[1] == prev]
+                self.gone.pop(name, None)
+                self.revs.setdefault(name, []).append((utid, prev, src[-1] if src else None))
             inverse[name] = (new, prev)
         self.history.append((utid, inverse))           # an undo is an ordinary transaction: it can be undone
         self.work = dict(self.committed)
@@ -269,6 +288,45 @@ class BlobWorld:
                 del self.revs[name]
         self.history = []          # packed transactions are not undoable
         return 'pack'
+
+    def undo2_fail(self):
+        """Undo the two newest transactions in ONE transaction whose commit then fails at another participant's
+        vote: nothing changes, and no blob file of the failed undo transaction remains."""
+        if len(self.history) < 2 or self.touched or self.sps or self.kind != 'file':
+            return None
+        (t1, _), (t2, _) = self.history[-2], self.history[-1]
+        if t2 != self.s.lastTransaction():
+            return None
+        import base64
+        self.db.undoMultiple([base64.encodebytes(t2).rstrip(), base64.encodebytes(t1).rstrip()], self.tm.get())
+        self.tm.get().join(FailingDM(self.tm, 'vote', False))
+        try:
+            self.tm.commit()
+            fail('commit with a failing participant succeeded')
+        except RuntimeError:
+            pass
+        self.tm.abort()
+        return 'undo2_fail'
+
+    def pack_mid(self):
+        """Pack to a time two transactions back: revisions superseded at that time lose their files, everything
+        current then or written later keeps them."""
+        if self.touched or self.sps or len(self.marks) < 3:
+            return None
+        from ZODB.serialize import referencesf
+        stop_tid, when = self.marks[-3]
+        self.s.pack(when, referencesf)
+        for name in list(self.revs):
+            rs = self.revs[name]
+            if name in self.gone and self.gone[name] <= stop_tid:
+                del self.revs[name]                   # the object did not exist any more at the pack time: garbage
+                continue
+            old = [r for r in rs if r[0] <= stop_tid]
+            new = [r for r in rs if r[0] > stop_tid]
+            needed = set(r[2] for r in new if r[2] is not None)       # revisions later undo records point back to
+            self.revs[name] = [r for r in old if r is old[-1] or r[0] in needed] + new
+        self.history = [(t, ch) for (t, ch) in self.history if t > stop_tid]
+        return 'pack_mid'
 
     # -- checks -------------------------------------------------------------
     def check_view(self, where):
@@ -296,7 +354,7 @@ class BlobWorld:
         files, leftovers = self.blob_files()
         want = {}
         for name, rs in self.revs.items():
-            for tid, data in rs:
+            for tid, data, _src in rs:
                 want[self.s.fshelper.getBlobFilename(self.oid[name], tid)] = data
         check(sorted(files) == sorted(want), 'set of committed blob files differs from the committed blob revisions (%s)' % where,
               sorted(os.path.relpath(p, self.blob_dir) for p in set(files) ^ set(want)))
@@ -367,7 +425,7 @@ class _Injector:
 
 
 CODES = ['new', 'rewrite0', 'append0', 'consume0', 'rewrite1', 'savepoint', 'rollback', 'commit', 'abort',
-         'fail_commit>', 'fail_vote>', 'fail_vote<', 'undo', 'pack']
+         'fail_commit>', 'fail_vote>', 'fail_vote<', 'undo', 'pack', 'pack_mid']
 
 
 def _step(w, code, other):
@@ -393,6 +451,10 @@ def _step(w, code, other):
         return w.undo_last()
     if code == 'pack':
         return w.pack()
+    if code == 'pack_mid':
+        return w.pack_mid()
+    if code == 'undo2_fail':
+        return w.undo2_fail()
     raise ValueError(code)
 
 
@@ -409,7 +471,7 @@ def _run(codes, kind, other, fault=None):
             trace.append(t)
             where = ' '.join(trace)
             w.check_view(where)
-            if code in ('commit', 'abort', 'undo', 'pack') or code.startswith('fail_'):
+            if code in ('commit', 'abort', 'undo', 'pack', 'pack_mid', 'undo2_fail') or code.startswith('fail_'):
                 w.check_disk(where)
                 w.check_other(where)
             elif code in ('savepoint', 'rollback'):
@@ -457,6 +519,33 @@ def h_fault(c0: int, c1: int, f: int, kind: str, other: bool) -> None:
     reached()
 
 
+WRITES = ['nothing', 'rewrite0', 'append0', 'consume0', 'new']
+
+
+def h_directed_sp(a: int, b: int, c: int, extra_sp: bool, end_commit: bool, kind: str) -> None:
+    """[write], S, [write], [S], rollback to the first savepoint, [write], then commit or abort: blob bytes
+    follow the savepoint state exactly."""
+    ws = [WRITES[choose(x, len(WRITES))] for x in (a, b, c)]
+    codes = [ws[0], 'savepoint', ws[1]] + (['savepoint'] if extra_sp else []) + ['rollback', ws[2], 'commit' if end_commit else 'abort']
+    codes = [x for x in codes if x != 'nothing']
+    with untraced():
+        _run(codes, kind, False)
+    reached()
+
+
+def h_directed_undo_pack(u1: bool, w3: bool, u2: bool, with_new: int, packsel: int, kind: str) -> None:
+    """write, commit, write, commit, [undo], [write, commit], [undo], then pack to now / to an earlier time /
+    not at all: the blob files on disk are exactly those of the revisions that remain."""
+    pk = ['pack', 'pack_mid', 'nothing', 'undo2_fail'][choose(packsel, 4)]
+    wn = choose(with_new, 3)          # a second blob created in the first (1) or second (2) transaction, or not at all
+    codes = (['new'] if wn == 1 else []) + ['rewrite0', 'commit'] + (['new'] if wn == 2 else []) + ['append0', 'commit'] + (['undo'] if u1 else []) + (['consume0', 'commit'] if w3 else []) \
+        + (['undo'] if u2 else []) + [pk]
+    codes = [x for x in codes if x != 'nothing']
+    with untraced():
+        _run(codes, kind, True)
+    reached()
+
+
 _FIRST = ['new', 'rewrite0', 'append0', 'consume0', 'savepoint', 'fail_commit>', 'fail_vote>', 'undo', 'pack']
 HARNESSES = [
     Harness('program', h_program,
@@ -475,6 +564,21 @@ HARNESSES = [
                        + shards(n=[3], kind=['file'], other=[False], first=_FIRST)),
             thorough=dict(timeout=3000, shards=shards(n=[3], kind=['file', 'mapping'], other=[True, False], first=CODES)
                           + shards(n=[4], kind=['file'], other=[True], first=CODES))),
+    Harness('directed_sp', h_directed_sp,
+            decides='blob writes around savepoints: after rolling back to the first savepoint (also with a later savepoint taken in '
+                    'between) the blob reads the savepoint bytes; commit stores exactly the final bytes, abort discards all',
+            symbolic='3 write selectors (nothing/rewrite/append/consume/new), optional second savepoint, commit or abort',
+            bounds='programs of 4-7 steps of this shape', oracle='blob model',
+            code=['TmpStore.storeBlob/loadBlob/reset', 'Connection._rollback_savepoint', 'Blob._p_invalidate'],
+            quick=dict(timeout=150, shards=shards(kind=['file', 'mapping'])), thorough=dict(timeout=300, shards=shards(kind=['file', 'mapping']))),
+    Harness('directed_undo_pack', h_directed_undo_pack,
+            decides='write/commit/undo chains followed by a pack to now or to an earlier time: the *.blob files are exactly those of the '
+                    'revisions the pack keeps (undo revisions included), bytes identical',
+            symbolic='3 booleans (undo / further write / second undo), selector for a second blob created in the first/second transaction, final step selector (pack to now / two transactions back / nothing / an undo of the two newest transactions whose commit fails at the vote)',
+            bounds='programs of 5-10 steps of this shape', oracle='blob revision model',
+            code=['FileStorage.undo (blob copy)', 'fspack.copyDataRecords (blob_removed)', 'FileStorage._remove_blob_files_tagged_for_removal_during_pack',
+                  'BlobStorage._packNonUndoing/_packUndoing'],
+            quick=dict(timeout=150, shards=shards(kind=['file'])), thorough=dict(timeout=300, shards=shards(kind=['file', 'mapping']))),
     Harness('fault', h_fault,
             decides='a commit during which any one file-system operation of the blob code fails either stands completely or leaves '
                     'no file of that transaction; the next transaction commits normally',
